@@ -4,6 +4,7 @@ import (
 	"fmt"
 	"go/constant"
 	"go/token"
+	"go/types"
 	"strings"
 
 	"golang.org/x/tools/go/ssa"
@@ -17,6 +18,7 @@ func init() {
 			"C16.opensites — every bbolt.Open call site in non-test module code is enumerated and classified by role; output sites (writer Flush, big-mode output of `updog create`) pass an OpenFile hook built by openfile.OpenFile with the constant option FailIfFileExists:true, input and scratch sites with FailIfFileDoesntExist:true; an unclassifiable site is undecided; " +
 			"C16.flags — in openfile.OpenFile the hook returned for FailIfFileExists calls os.OpenFile with flags|O_EXCL (so an existing file of any content makes the open fail before anything is written), the one for FailIfFileDoesntExist with flags&^O_CREATE, and FailIfFileExists is tested first; " +
 			"C16.readonly — from the read entry points (OpenIndex, OpenIndexFromBoltDatabase, all index options, Execute, GetSchema, Close, the sql driver's connection/statement methods, the gRPC handler, `updog schema`) no call resolves to a bbolt write API (Update, Batch, Begin(writable), Commit, Put, Delete, CreateBucket*, DeleteBucket, sequences) or to a file-mutating os call. " +
+			"C16.noclobber — no os call that removes, truncates, renames or rewrites a path is applied to an index output path (path of an exclusive-create bbolt.Open, filename of NewIndexWriter) unless the same call of the function created the file (dominated by the successful exclusive open); scratch files from os.CreateTemp are exempt. " +
 			"NOT decided: byte-for-byte equality as such; that bbolt.Open in read-write mode does not modify a well-formed file and that O_EXCL is honoured by the OS (trusted).",
 		assumptions: []string{"bbolt.Open(read-write) does not write to a well-formed file", "O_CREATE|O_EXCL semantics of the OS", "call graph over-approximates the calls that can happen"},
 	})
@@ -120,6 +122,7 @@ func runC16(c *Ctx) {
 	c.r.expect("C16.readonly", 30)
 	openSitesRule(c, "C16.opensites")
 	openFlagsRule(c, "C16.flags")
+	noClobberRule(c, "C16.noclobber")
 }
 
 // ---------- bbolt.Open census ----------
@@ -487,4 +490,134 @@ func openFlagsRule(c *Ctx, rule string) {
 		"with FailIfFileDoesntExist the returned hook does not clear O_CREATE ("+d.kind+"): opening a missing file would create it", d.pos)
 	d = decide(false, false)
 	c.r.check(d.kind == "plain", rule, "default hook", "os.OpenFile unchanged", "without options the hook alters the open ("+d.kind+")", d.pos)
+}
+
+// ---------- who may remove / truncate / rename a path ----------
+
+// pathMutators: os-level calls that destroy or replace what a path names; value = indices of the path arguments.
+var pathMutators = map[string][]int{
+	"os.Remove": {0}, "os.RemoveAll": {0}, "os.Rename": {0, 1}, "os.Truncate": {0}, "os.WriteFile": {0}, "os.Create": {0},
+	"io/ioutil.WriteFile": {0}, "os.Link": {1}, "os.Symlink": {1},
+}
+
+// noClobberRule: no call in non-test module code removes, truncates, renames or rewrites a path that is an index output
+// path (the path of a bbolt.Open with the exclusive-create hook, or the filename argument of NewIndexWriter), unless the
+// file was created by this very call of the function (the mutation is dominated by the successful exclusive open of the
+// same path: cleanup of one's own partial output). Scratch files (os.CreateTemp) and unrelated paths are accepted.
+func noClobberRule(c *Ctx, rule string) {
+	// output paths: fields / values feeding the path of exclusive-create opens and of NewIndexWriter
+	outFields := map[*types.Var]bool{}
+	outVals := map[ssa.Value]bool{}
+	type exclOpen struct {
+		call *ssa.Call
+		path ssa.Value
+	}
+	exclIn := map[*ssa.Function][]exclOpen{}
+	note := func(v ssa.Value) {
+		v = peel(v)
+		outVals[v] = true
+		if f := path(v).lastField(); f != nil {
+			outFields[f] = true
+		}
+	}
+	for _, s := range boltOpenSites(c) {
+		if s.hook && s.exists != nil && *s.exists && !fromCreateTemp(s.call.Call.Args[0]) {
+			note(s.call.Call.Args[0])
+			exclIn[s.fn] = append(exclIn[s.fn], exclOpen{s.call, s.call.Call.Args[0]})
+		}
+	}
+	for _, fn := range c.w.ModFuncs {
+		allInstrs(fn, func(i ssa.Instruction) {
+			if call, ok := i.(*ssa.Call); ok && calleeFunc(&call.Call) == c.a.NewMem && len(call.Call.Args) > 0 {
+				note(call.Call.Args[0])
+			}
+		})
+	}
+	// a field that a constructor fills from its filename parameter is an output field as well
+	if c.a.NewMem != nil {
+		allInstrs(c.a.NewMem, func(i ssa.Instruction) {
+			if st, ok := i.(*ssa.Store); ok {
+				if _, isPar := st.Val.(*ssa.Parameter); isPar && isStringType(st.Val.Type()) {
+					if fa, ok := st.Addr.(*ssa.FieldAddr); ok {
+						if f := fieldOf(fa.X.Type(), fa.Field); f != nil {
+							outFields[f] = true
+						}
+					}
+				}
+			}
+		})
+	}
+	if len(outFields)+len(outVals) == 0 {
+		c.r.undecided(rule, "<vacuity>", "no output path found (no exclusive-create bbolt.Open, no NewIndexWriter call)")
+		return
+	}
+	isOutput := func(v ssa.Value) bool {
+		v = peel(v)
+		if outVals[v] {
+			return true
+		}
+		if f := path(v).lastField(); f != nil && outFields[f] {
+			return true
+		}
+		return false
+	}
+	n := 0
+	idx := map[string]int{}
+	for _, fn := range c.w.ModFuncs {
+		allInstrs(fn, func(i ssa.Instruction) {
+			cc := callCommon(i)
+			if cc == nil {
+				return
+			}
+			name := calleeName(cc)
+			argIdx, ok := pathMutators[name]
+			if !ok {
+				return
+			}
+			n++
+			idx[safeFname(fn)+name]++
+			key := fmt.Sprintf("%s: %s#%d", safeFname(fn), shortName(name), idx[safeFname(fn)+name])
+			pos := c.w.ipos(i)
+			for _, ai := range argIdx {
+				arg := cc.Args[ai]
+				if fromCreateTemp(arg) {
+					continue
+				}
+				if !isOutput(arg) {
+					continue
+				}
+				// created by this call of the function? the mutation must be dominated by the success edge of an exclusive open of the same path
+				own := false
+				for _, eo := range exclIn[fn] {
+					if !c.fc.sameFieldLoad(eo.path, arg) && peel(eo.path) != peel(arg) {
+						continue
+					}
+					errv := resultValue(eo.call, 1)
+					if errv == nil || !eo.call.Block().Dominates(i.Block()) {
+						continue
+					}
+					for _, cm := range cmpsAt(i) {
+						if cm.Op == token.EQL && ((cm.X == errv && isNilConst(cm.Y)) || (cm.Y == errv && isNilConst(cm.X))) {
+							own = true
+						}
+					}
+				}
+				if own {
+					continue
+				}
+				c.r.bad(rule, key, shortName(name)+" is applied to an index output path that this call did not create itself: a file that existed before Flush can be removed, truncated or replaced", []string{pos})
+				return
+			}
+			c.r.ok(rule, key, "path is a scratch file, not an output path, or a file this call created exclusively", pos)
+		})
+	}
+	c.r.Stats["path_mutator_calls"] = n
+	if n == 0 {
+		c.r.ok(rule, "<none>", "no path-mutating os call in non-test module code")
+	}
+}
+
+func isStringType(t types.Type) bool {
+	b, ok := t.Underlying().(*types.Basic)
+	return ok && b.Kind() == types.String
 }
